@@ -15,11 +15,11 @@ GUARD = 'PYSYNCOBJ_VERIF'
 
 # theorem files shared by several properties: the refinement of the L1 model to abstract Raft (log matching, leader
 # completeness, state-machine safety, committed entries never change) is an obligation of each of these
-SHARED_PROPS = {'C01': ['TierC', 'TierC2', 'TierC3', 'TierC4', 'TierC5', 'TierC6', 'TierC7'],
+SHARED_PROPS = {'C01': ['TierC', 'TierC2', 'TierC3', 'TierC4', 'TierC5', 'TierC6', 'TierC7', 'TierCM2c'],
                 'C02': ['C02b'],
                 'C03': ['TierC', 'TierC2', 'TierC3', 'TierC4', 'TierC5'], 'C05': ['C05b'], 'C06': ['C06b'],
                 'C04': ['TierC', 'TierC2', 'TierC3', 'TierC4', 'TierC5'], 'C09': ['TierC3', 'TierC4', 'TierC5', 'TierC6'],
-                'C10': ['C10m', 'TierCM', 'TierCM3', 'TierCM2', 'TierCM2b'], 'C11': ['TierC3'], 'C12': ['TierC6'], 'C13': ['C13p'], 'C17': ['TierC5'], 'C18': ['TierC7'], 'C20': ['C20b']}
+                'C10': ['C10m', 'TierCM', 'TierCM3', 'TierCM2', 'TierCM2b', 'TierCM2c'], 'C11': ['TierC3'], 'C12': ['TierC6'], 'C13': ['C13p'], 'C17': ['TierC5'], 'C18': ['TierC7'], 'C20': ['C20b']}
 
 BASE_TRUSTED = [
     'Coq 8.16.1 kernel (coqc); vm_compute conversion is used to evaluate the model in the correspondence check, '
